@@ -68,6 +68,11 @@ def _entry_points(tier, seed):
       poly = 'polynomial' if cls == 'dry' else {'div', 'integer_pow'}
       eps[f'{cls}:{impl}:explicit_terms'] = (eq.explicit_terms, states, poly)
       if cls == 'dry':
+        # the non-default first-order upwind scheme: piecewise linear in the vertical velocity (max / min against 0); the rest state sits exactly on
+        # the kink, where the derivative of max / min splits evenly -- which is what a central difference of the primal gives
+        from dinosaur import sigma_coordinates as _sc
+        eq_up = common.make_primitive(g, sig, 'linear', cls=cls, specs=specs, orography=oro, vertical_advection=_sc.upwind_vertical_advection)
+        eps[f'{cls}:{impl}:explicit_terms[upwind vertical advection]'] = (eq_up.explicit_terms, states, {'max', 'min', 'div'})       # div: by constants (radius, level spacing) downstream of the max / min
         eps[f'{cls}:{impl}:implicit_terms'] = (eq.implicit_terms, states[:2], 'polynomial')
         eps[f'{cls}:{impl}:implicit_inverse'] = (lambda s, eq=eq: eq.implicit_inverse(s, 0.37), states[:2], 'polynomial')
         if impl == 'real' or tier == 'thorough':
